@@ -117,7 +117,7 @@ static std::vector<Instance> mk(const std::string &tier) {
 	bool th = tier == "thorough";
 	struct Cfg { int U, copies, M, fresh; };
 	// fresh=1: a removed node object is re-created before re-use; fresh=0: re-used with stale colour/aggregate
-	std::vector<Cfg> cfgs = th ? std::vector<Cfg>{{2, 2, 6, 1}, {3, 1, 7, 1}, {3, 2, 5, 1}, {4, 1, 6, 1}, {5, 1, 4, 1}, {1, 3, 7, 1}, {2, 1, 6, 0}, {1, 3, 5, 0}, {1, 2, 4, 0}, {3, 1, 3, 0}}
+	std::vector<Cfg> cfgs = th ? std::vector<Cfg>{{2, 2, 6, 1}, {3, 1, 7, 1}, {3, 2, 5, 1}, {4, 1, 6, 1}, {5, 1, 4, 1}, {1, 3, 7, 1}, {2, 1, 6, 0}, {1, 3, 5, 0}, {1, 2, 4, 0}, {3, 1, 2, 0}}
 	                           : std::vector<Cfg>{{2, 2, 5, 1}, {3, 1, 6, 1}, {4, 1, 4, 1}, {1, 3, 6, 1}, {2, 1, 5, 0}, {1, 2, 4, 0}};
 	for(auto c : cfgs) v.push_back(mkinst(c.U, c.copies, c.M, c.fresh));
 	return v;
